@@ -585,6 +585,20 @@ def check_fraction(ctx, rule):
             chars = sorted(chr(v) for k_, v in tree[0][1] if str(k_) == "LITERAL")
             okp = chars == [",", "."]
     ctx.ob(rule, c, "the decimal mark is a dot or a comma", okp, construct="_FRACTION_REGEX = %r" % pat, analysis="regex AST")
+    # "any number of fraction digits": the captured group is one unbounded repetition of an ASCII digit
+    okd, why = False, "no group"
+    if pat:
+        from re._constants import MAXREPEAT
+        groups = [t for t in tree if str(t[0]) == "SUBPATTERN"]
+        if len(groups) == 1 and len(groups[0][1][3]) == 1 and str(groups[0][1][3][0][0]) in ("MAX_REPEAT",):
+            lo, hi, item = groups[0][1][3][0][1]
+            item = list(item)
+            digit = len(item) == 1 and str(item[0][0]) == "IN" and [(str(k_), v) for k_, v in item[0][1]] in ([("RANGE", (48, 57))],) or \
+                len(item) == 1 and str(item[0][0]) == "IN" and [str(v) for k_, v in item[0][1]] == ["CATEGORY_DIGIT"] and isinstance(fr.args[0].value, bytes)
+            okd = lo == 1 and hi == MAXREPEAT and bool(digit) and len(tree) == 2
+            why = "repeat {%s,%s} of %s" % (lo, "unbounded" if hi == MAXREPEAT else hi, item)
+    ctx.ob(rule, c, "a fraction has any number of digits (one or more ASCII digits, no upper bound; what follows the last digit is the next field)", okd,
+           construct="_FRACTION_REGEX digits", detail="" if okd else why, analysis="regex AST")
     m = [x for x in walk_local(tm.node) if isinstance(x, ast.Call) and src(x.func) == "self._FRACTION_REGEX.match"]
     ctx.ob(rule, tm, "the fraction is matched at the cursor", len(m) == 1 and src(m[0].args[0]) == "timestr[pos:]", construct="self._FRACTION_REGEX.match(timestr[pos:])")
 
